@@ -1,5 +1,5 @@
 import importlib
-MODULES = ['leaf_checks', 'lang', 'enforce']
+MODULES = ['leaf_checks', 'lang', 'enforce', 'loader']
 
 
 def load_all():
